@@ -152,33 +152,38 @@ def r2_conservative(ctx) -> None:
         m = c.methods.get("resolve")
         if m is None:
             ctx.broken(f"anchor vanished: {q}.resolve")
-        tries = [n for n in ast.walk(m) if isinstance(n, ast.Try)]
-        ok = len(tries) == 1
+        rp = m.args.args[1].arg
+        lookup = f"{rp}.get_extension(self.extension).{getter}({key})"
+        lookup_parts = {u(n) for n in ast.walk(ast.parse(lookup, mode="eval").body) if isinstance(n, ast.Call)}
+        ps = ctx.paths(f"{q}.resolve")
+        bail = [p for p in ps if p.kind == "return" and p.value_text() == "self"]
+        resolved = [p for p in ps if p.kind == "return" and p.value_text() != "self"]
+        ok = bool(bail) and bool(resolved) and len(bail) + len(resolved) == len([p for p in ps if p.kind != "raise"])
         found = ""
-        if ok:
-            t = tries[0]
-            body_ok = len(t.body) == 1 and isinstance(t.body[0], ast.Assign) and u(t.body[0].value) == f"registry.get_extension(self.extension).{getter}({key})"
-            found = u(t.body[0])[:160] if t.body else ""
-            names = set()
-            h_ok = len(t.handlers) == 1
-            for h in t.handlers:
-                tp = h.type
-                elts = tp.elts if isinstance(tp, ast.Tuple) else [tp]
-                names |= {u(e).split(".")[-1] for e in elts if e is not None}
-                if h.type is None:
-                    h_ok = False
-                rb = h.body
-                if not (len(rb) == 1 and isinstance(rb[0], ast.Return) and u(rb[0].value) == "self"):
-                    h_ok = False
-            ok = body_ok and h_ok and names == excs and not t.finalbody and not t.orelse
-            found += f" except {sorted(names)}"
+        names = set()
+        for p in bail:
+            ex = [t for t, k in p.tests if isinstance(t, ast.Call) and u(t.func) == "except_"]
+            if len(ex) != 1 or not ex[0].args or len(p.tests) != 1:
+                ok = False
+                found = "returns self on: " + p.describe()
+                continue
+            tp = ex[0].args[0]
+            names |= {u(e).split(".")[-1] for e in (tp.elts if isinstance(tp, ast.Tuple) else [tp])}
+            tr = [e for e in p.effects if isinstance(e, ast.Try)]
+            guarded = {u(x) for t in tr for b in t.body for x in ast.walk(b) if isinstance(x, ast.Call)}
+            found = "; ".join(sorted(guarded))[:160]
+            # inside the try there is nothing but the lookup: an exception from anything else must not be taken for "not found"
+            ok = ok and len(tr) == 1 and lookup in guarded and guarded <= lookup_parts
+        ok = ok and names == excs
+        for p in resolved:
+            ok = ok and isinstance(p.value, ast.Call) and bool(p.value.args or p.value.keywords) and lookup in {u(x) for x in ast.walk(p.value)}
+        found += f" except {sorted(names)}"
         ctx.check(ok, "C11.R2", f"{q}.resolve: lookup", c.module.path, m.lineno,
                   f"{c.name}.resolve must look up its own extension and name and return itself in exactly the handlers of {sorted(excs)}", m,
-                  expected=f"try: registry.get_extension(self.extension).{getter}({key}) except ({', '.join(sorted(excs))}): return self", found=found)
-        # no other return of self / no other try
-        others = [r for r in ast.walk(m) if isinstance(r, ast.Return) and u(r.value) == "self" and not any(r in ast.walk(h) for t in tries for h in t.handlers)]
+                  expected=f"try: {lookup} except ({', '.join(sorted(excs))}): return self", found=found)
+        others = [p for p in bail if not any(isinstance(t, ast.Call) and u(t.func) == "except_" for t, k in p.tests)]
         ctx.check(not others, "C11.R2", f"{q}.resolve: no other bail-out", c.module.path, m.lineno,
-                  "resolve returns the unresolved value outside the not-found handlers", others[0] if others else None)
+                  "resolve returns the unresolved value outside the not-found handlers", others[0].node if others else None)
     # the getters raise the documented exceptions exactly on KeyError of the name-keyed dictionaries
     ext = prog.cls("hugr.ext.Extension")
     reg = prog.cls("hugr.ext.ExtensionRegistry")
@@ -301,17 +306,31 @@ def r5_hugr(ctx) -> None:
     m = hugr.methods.get("resolve_extensions")
     if m is None:
         ctx.broken("anchor vanished: Hugr.resolve_extensions")
-    loops = [n for n in ast.walk(m) if isinstance(n, ast.For)]
-    ok = len(loops) == 1 and u(loops[0].iter) in ("self", "self.nodes()", "self._nodes", "self.items()") and not any(isinstance(x, (ast.Break, ast.Continue)) for x in ast.walk(m))
+    from ..paths import summaries
+    cm = ctx.cfn("hugr.hugr.base.Hugr.resolve_extensions", subst=False)
+    reg = m.args.args[1].arg
+    loops = [n for n in ast.walk(cm) if isinstance(n, ast.For)]
+    lps = summaries(loops[0].body) if len(loops) == 1 else []
+    ok = len(loops) == 1 and u(loops[0].iter) in ("self", "self.nodes()", "self._nodes", "self.items()") and bool(lps) and all(p.kind in ("fall", "continue") for p in lps)
     ctx.check(ok, "C11.R5", "Hugr.resolve_extensions: visits every node", hugr.module.path, m.lineno, "resolution must visit every node of the HUGR", m)
     if loops:
         lp = loops[0]
-        stores = [n for n in ast.walk(lp) if isinstance(n, ast.Assign) and isinstance(n.targets[0], ast.Attribute) and n.targets[0].attr == "op"]
-        ok = len(stores) == 1 and isinstance(stores[0].value, ast.Call) and call_name(stores[0].value) == "resolve" and u(stores[0].value.args[0]) == m.args.args[1].arg
-        guard = [n for n in ast.walk(lp) if isinstance(n, ast.If) and stores and stores[0] in list(ast.walk(n))]
-        ok = ok and len(guard) == 1 and u(guard[0].test).replace("ops.", "") == f"isinstance({u(stores[0].value.func.value)}, Custom)"
-        ctx.check(ok, "C11.R5", "Hugr.resolve_extensions: rewrites opaque ops only", hugr.module.path, lp.lineno,
-                  "exactly the Custom operations are replaced by op.resolve(registry), assigned back to their node", lp)
+        nv = u(lp.target.elts[0]) if isinstance(lp.target, ast.Tuple) else u(lp.target)
+        data = f"self[{nv}]" if not isinstance(lp.target, ast.Tuple) else u(lp.target.elts[1])
+        ok = bool(lps)
+        seen = set()
+        for p in lps:
+            t = [k for t_, k in p.tests if u(t_).replace("ops.", "") == f"isinstance({data}.op, Custom)"]
+            stores = [e for e in p.effects if isinstance(e, ast.Assign) and isinstance(e.targets[0], ast.Attribute) and e.targets[0].attr == "op"]
+            if t and t[0]:
+                seen.add(True)
+                ok = ok and len(stores) == 1 and u(stores[0].targets[0]) == f"{data}.op" and u(stores[0].value) == f"{data}.op.resolve({reg})"
+            else:
+                seen.add(False)
+                ok = ok and bool(t) and not stores
+        ctx.check(ok and seen == {True, False}, "C11.R5", "Hugr.resolve_extensions: rewrites opaque ops only", hugr.module.path, lp.lineno,
+                  "exactly the Custom operations are replaced by op.resolve(registry), assigned back to their node", lp,
+                  found="; ".join(p.describe() + " :: " + " | ".join(p.effect_texts()) for p in lps)[:300])
     rets = [r for r in ast.walk(m) if isinstance(r, ast.Return)]
     ctx.check(len(rets) == 1 and u(rets[0].value) == "self", "C11.R5", "Hugr.resolve_extensions: returns the HUGR", hugr.module.path, m.lineno, "", m)
     # resolved forms are fixed points: no resolve override that changes them
